@@ -242,6 +242,10 @@ module "kid" {
   name   = "world"
   size   = local.ports[0]
   region = var.region
+  inputs = {
+    name = local.prefix
+    size = 2
+  }
 }
 
 output "instance_ids" {
